@@ -54,7 +54,7 @@ def module_cases(c):
     c.extra["module_descriptions_in_model"] = len(descs)
     rnd = random.Random(c.seed + 3)
     if c.quick:
-        descs = rnd.sample(descs, 260)
+        descs = rnd.sample(descs, 200)
     out = []
     wqs = ["qint8", "qfloat8", "qint4", "qint2"]
     for i, d in enumerate(descs):
@@ -93,9 +93,10 @@ def body(c, judge):
     need = {"C08": ["Quantize", "Forward"], "C09": ["Freeze", "DeepCopy"], "C10": ["Save", "Load"], "C11": ["OptStep", "Forward"],
             "C13": ["RaiseIn", "ExitCalib", "Forward", "LibCall"]}[judge]
     dirs = directed(judge)
-    if c.quick and len(dirs) > 400:
+    cap = 240 if judge in ("C08", "C10") else 400
+    if c.quick and len(dirs) > cap:
         import random
-        dirs = random.Random(c.seed).sample(dirs, 400)
+        dirs = random.Random(c.seed).sample(dirs, cap)
     if judge == "C08":
         dirs += module_cases(c)
     if judge == "C13":
